@@ -2128,6 +2128,15 @@ func (c *Conn) handleChangeCipherSpecRecord(
 	bufferLease *readBufferLease,
 ) bool {
 	common := dtlsstate.CommonState(c.state)
+	// No cipher suite authenticates a ChangeCipherSpec. It is only meaningful as
+	// the unprotected record that ends the peer's epoch 0 during the handshake;
+	// one that claims a later epoch, or arrives once the handshake is complete,
+	// could come from anybody and must not move the epoch or the replay window.
+	if prepared.header.Epoch != 0 || (c.handshakeEstablished != nil && c.isHandshakeCompletedSuccessfully()) {
+		c.log.Debug("discarded unexpected ChangeCipherSpec")
+
+		return false
+	}
 	if !c.hasInboundRecordProtection() {
 		if bufferLease != nil {
 			if ok := bufferLease.enqueue(addrPkt{rAddr: rAddr, data: prepared.buf}); ok {
